@@ -90,6 +90,12 @@ const (
 	BranchM   = "UbM"
 	LowStruct = "lowSt" // lower-case schema name
 	StructM   = "StM"   // struct made of records with framing only
+	StructX   = "StX"   // three levels of structs by value: StX -> StW -> StF, declared outermost first
+	StructW   = "StW"   // declared before the structs it is made of (forward references)
+	StructV   = "StV"   // holds only fixed-size types, but in an array: not fixed-size itself
+	StructF   = "StF"   // fixed-size struct (12 bytes)
+	StructBig = "StBig" // fixed-size struct of 256 bytes (sixteen guids)
+	BranchT   = "UbT"   // union branch whose fields are of a sibling branch type
 )
 
 func NewUniverse() *Universe {
@@ -101,6 +107,11 @@ func NewUniverse() *Universe {
 	u.Types[StructE] = TypeInfo{Name: StructE, Class: ClsStruct, Empty: true}
 	u.Types[StructR] = TypeInfo{Name: StructR, Class: ClsStruct}
 	u.Types[StructM] = TypeInfo{Name: StructM, Class: ClsStruct}
+	u.Types[StructW] = TypeInfo{Name: StructW, Class: ClsStruct}
+	u.Types[StructX] = TypeInfo{Name: StructX, Class: ClsStruct}
+	u.Types[StructV] = TypeInfo{Name: StructV, Class: ClsStruct}
+	u.Types[StructF] = TypeInfo{Name: StructF, Class: ClsStruct}
+	u.Types[StructBig] = TypeInfo{Name: StructBig, Class: ClsStruct}
 	u.Types[MessageA] = TypeInfo{Name: MessageA, Class: ClsMessage}
 	u.Types[MessageE] = TypeInfo{Name: MessageE, Class: ClsMessage, Empty: true}
 	u.Types[UnionA] = TypeInfo{Name: UnionA, Class: ClsUnion}
@@ -127,7 +138,17 @@ func (u *Universe) BaseDefs(b *geneval.Builder) geneval.FileSpec {
 		fs.Enums = append(fs.Enums, b.Enum(EnumName(base), base, unsigned,
 			geneval.OptSpec{Name: "A", Value: 1, UintValue: 1}, geneval.OptSpec{Name: "B", Value: 2, UintValue: 2, Deprecated: true}))
 	}
+	var big []geneval.FieldSpec
+	for i := 0; i < 16; i++ {
+		big = append(big, geneval.FieldSpec{Name: fmt.Sprintf("g%d", i), Shape: geneval.Simple("guid")})
+	}
 	fs.Structs = append(fs.Structs,
+		// declared before the structs it is made of
+		b.Struct(StructX, false, 0, geneval.FieldSpec{Name: "w", Shape: geneval.Simple(StructW)}, geneval.FieldSpec{Name: "t", Shape: geneval.Simple("uint8")}),
+		b.Struct(StructW, false, 0, geneval.FieldSpec{Name: "f", Shape: geneval.Simple(StructF)}, geneval.FieldSpec{Name: "a", Shape: geneval.Simple(StructA)}),
+		b.Struct(StructV, false, 0, geneval.FieldSpec{Name: "c", Shape: geneval.Simple("uint16")}, geneval.FieldSpec{Name: "v", Shape: geneval.Arr(geneval.Simple("int32"))}),
+		b.Struct(StructF, false, 0, geneval.FieldSpec{Name: "x", Shape: geneval.Simple("int32")}, geneval.FieldSpec{Name: "y", Shape: geneval.Simple("float64")}),
+		b.Struct(StructBig, false, 0, big...),
 		b.Struct(StructA, false, 0, geneval.FieldSpec{Name: "x", Shape: geneval.Simple("int32")}, geneval.FieldSpec{Name: "s", Shape: geneval.Simple("string")}),
 		b.Struct(StructE, false, 0),
 		b.Struct(StructM, false, 0, geneval.FieldSpec{Name: "m", Shape: geneval.Simple(MessageA)}, geneval.FieldSpec{Name: "u", Shape: geneval.Simple(UnionA)}),
@@ -136,14 +157,18 @@ func (u *Universe) BaseDefs(b *geneval.Builder) geneval.FileSpec {
 	fs.Messages = append(fs.Messages,
 		b.Message(MessageA, 0x31, geneval.NumField{Num: 1, FieldSpec: geneval.FieldSpec{Name: "a", Shape: geneval.Simple("int64")}},
 			geneval.NumField{Num: 2, FieldSpec: geneval.FieldSpec{Name: "old", Shape: geneval.Simple("string"), Deprecated: true}},
-			geneval.NumField{Num: 5, FieldSpec: geneval.FieldSpec{Name: "c", Shape: geneval.Simple(StructA)}}),
+			geneval.NumField{Num: 5, FieldSpec: geneval.FieldSpec{Name: "c", Shape: geneval.Simple(StructA)}},
+			// a two-digit index: "10" sorts before "2" as text
+			geneval.NumField{Num: 10, FieldSpec: geneval.FieldSpec{Name: "z", Shape: geneval.Simple("uint8")}}),
 		b.Message(MessageE, 0),
 	)
 	fs.Unions = append(fs.Unions,
 		b.Union(UnionA, 0x41424344,
 			geneval.Branch{Num: 1, Struct: b.Struct(BranchS, false, 0, geneval.FieldSpec{Name: "n", Shape: geneval.Simple("uint64")})},
 			geneval.Branch{Num: 2, Message: b.Message(BranchM, 0, geneval.NumField{Num: 1, FieldSpec: geneval.FieldSpec{Name: "t", Shape: geneval.Simple("date")}})},
-			geneval.Branch{Num: 4, Struct: b.Struct("UbE", false, 0)}),
+			geneval.Branch{Num: 4, Struct: b.Struct("UbE", false, 0)},
+			// a branch made of a sibling branch's type, twice: the reader must step over the first
+			geneval.Branch{Num: 12, Struct: b.Struct(BranchT, false, 0, geneval.FieldSpec{Name: "p", Shape: geneval.Simple(BranchS)}, geneval.FieldSpec{Name: "q", Shape: geneval.Simple(BranchS)})}),
 	)
 	return fs
 }
@@ -153,7 +178,7 @@ func (u *Universe) BaseDefs(b *geneval.Builder) geneval.FileSpec {
 // 2 = full leaves at every depth (thorough).
 func (u *Universe) Shapes(maxDepth int, level int) []geneval.Shape {
 	leaves := u.Leaves()
-	rep := []string{"bool", "byte", "uint8", "int16", "uint32", "int64", "float64", "guid", "date", "string", EnumName("uint8"), EnumName("int64"), StructA, StructE, StructR, StructM, MessageA, UnionA}
+	rep := []string{"bool", "byte", "uint8", "int16", "uint32", "int64", "float64", "guid", "date", "string", EnumName("uint8"), EnumName("int64"), StructA, StructE, StructR, StructM, StructW, StructX, StructV, StructF, MessageA, UnionA}
 	keysAll := PrimitiveKeys
 	keysRep := []string{"string", "int32", "guid", "date", "byte"}
 	var out []geneval.Shape
